@@ -3,6 +3,9 @@
      SCL  <i|u|f|d> <sep> <comment> <maxBatch> <hex>
      SVM  <cls|reg> <d|f> <v|c> <highestIndex> <batchSize> <s|f> <hex>
      XCSV <data|cls|reg> <d|f> <F|L> <nout> <sep> <maxBatch> <s|f> <rows>     rows: lab|tok,tok;...
+     XSVM <cls|reg> <v|c> <batchSize> <rows>                                   rows: lab|val,val;...  (decimal doubles)
+   XSVM: the element stores every component (v, dense) or its non-zeros (c, compressed); a double becomes the token
+   operator<< prints with the default precision (printf "%g"), the model exports and re-imports the tokens.
    Tokens are turned into doubles here (float_of_string = correctly rounded strtod); 'f' variants round to single. *)
 open C19_model
 
@@ -98,7 +101,24 @@ let run toks =
       | _ -> export_reg first sepb (List.map (fun (l, v) -> (List.map parse_tok l, v)) recs) in
     "X text=" ^ hex (string_of_bytes text) ^ " " ^
     csv_line variant rnd first (nat_of_int (int_of_string nout)) sepb (n_of_int 35) (nat_of_int (int_of_string mb)) text
-  | "XSVM" :: _ -> "-"
+  | "XSVM" :: variant :: store :: bs :: rows :: _ ->
+    let comp = (store = "c") in
+    let tok_of x = parse_tok (Printf.sprintf "%g" x) in
+    let recs = List.map (fun r -> match String.split_on_char '|' r with
+        | [l; v] -> (l, List.map float_of_string (split ',' v))
+        | _ -> failwith "bad row") (split ';' rows) in
+    let entries vals = List.concat (List.mapi (fun j x -> if comp && x = 0.0 then [] else [(n_of_int j, tok_of x)]) vals) in
+    let bsn = nat_of_int (int_of_string bs) in
+    let id x = x in
+    if variant = "cls" then begin
+      let text = export_svm_cls (List.map (fun (l, vals) -> (n_of_int (int_of_float (float_of_string l)), entries vals)) recs) in
+      "X text=" ^ hex (string_of_bytes text) ^ " " ^
+      outcome (fun d -> show ~dimstr:(dim_of d) ~cls:(cls_of d) zlab (sparse id) d) (svm_import_cls comp Z0 bsn text)
+    end else begin
+      let text = export_svm_reg (List.map (fun (l, vals) -> (tok_of (float_of_string l), entries vals)) recs) in
+      "X text=" ^ hex (string_of_bytes text) ^ " " ^
+      outcome (fun d -> show ~dimstr:(dim_of d) ~cls:"-" (fun l -> hexf (float_of_num l)) (sparse id) d) (svm_import_reg comp Z0 bsn text)
+    end
   | _ -> "BADCASE"
 
 let () =
